@@ -1604,7 +1604,9 @@ pub(crate) mod verif {
 
     pub(crate) fn encode(context: &RewriteContext<'_>, t: &UseTree) -> Enc {
         (
-            t.visibility.as_ref().map(|v| context.snippet(v.span).to_owned()),
+            t.visibility
+                .as_ref()
+                .map(|v| context.snippet(v.span).to_owned()),
             t.attrs.as_ref().map(|a| {
                 a.iter()
                     .map(|x| context.snippet(x.span).to_owned())
@@ -1647,7 +1649,10 @@ pub(crate) mod verif {
         normalized_items
     }
 
-    pub(crate) fn per_tree(t: &UseTree, granularity: ImportGranularity) -> (String, Vec<String>, String) {
+    pub(crate) fn per_tree(
+        t: &UseTree,
+        granularity: ImportGranularity,
+    ) -> (String, Vec<String>, String) {
         (
             show(&t.clone().normalize()),
             t.clone().flatten(granularity).iter().map(show).collect(),
